@@ -776,7 +776,7 @@ theorem Live.conserve_eq {s s' : State} {A : ConnId → Prop} (h : Live s) (hc :
 theorem Live.nowhere {s : State} (h : Live s) {x : ConnId} (hx : s.conns x = none) : Nowhere s x :=
   nowhere_of_not_located (fun hl => by have := h x hl; rw [hx] at this; cases this)
 
-theorem newConn_sub (s : State) (c : Checkout) (alpn : Bool) (hfresh : s.conns s.nextConn = none) :
+theorem newConn_sub (s : State) (c : Checkout) (alpn : Negotiated) (hfresh : s.conns s.nextConn = none) :
     Sub (newConn s c alpn).1 s := by
   unfold newConn
   simp only []
@@ -793,7 +793,7 @@ theorem newConn_sub (s : State) (c : Checkout) (alpn : Bool) (hfresh : s.conns s
     | held r => exact hl
     | task i => exact hl
 
-theorem newConn_conns (s : State) (c : Checkout) (alpn : Bool) :
+theorem newConn_conns (s : State) (c : Checkout) (alpn : Negotiated) :
     (∀ x, (s.conns x).isSome = true → ((newConn s c alpn).1.conns x).isSome = true) ∧
     ((newConn s c alpn).1.conns (newConn s c alpn).2).isSome = true ∧ (newConn s c alpn).2 = s.nextConn := by
   unfold newConn
